@@ -53,6 +53,10 @@ pub fn run(a: &Args) {
         let focus = ["c04", "c05", "c06", "c07", "c20", "c12"][(case % 6) as usize];
         let mut plan = gen_plan(&mut rng, focus, &a.tier, case + 1);
         if plan.crash == 3 { plan.crash = 1; }
+        // names that are not ASCII: thread names and caller-supplied mapping names go through the string writer
+        let fancy = ["tête", "ñandú-7", "日本語スレ", "😀😀", "a é", "ü"];
+        for (i, t) in plan.scen.threads.iter_mut().enumerate() { if rng.chance(1, 2) { t.name = Some(fancy[i % fancy.len()].as_bytes().to_vec()); } }
+        if rng.chance(2, 3) { plan.user_maps.push((0x2000_0000, 0x3000, format!("/opt/démo/lib{}.so.{}", rng.pick(&["über‑café", "plain", "日本"]), rng.below(9)), (0..rng.below(24)).map(|_| rng.next() as u8).collect())); }
         // descriptors and a synthetic linker chain so that the handle and linker streams carry references
         for k in ["file", "pipe", "socket", "dir"] { if rng.chance(1, 2) { plan.scen.lines.push(format!("fd {k}")); } }
         let opts = format!("crash{} limit{} sanitize{} skip{} app{} threads{}", plan.crash, plan.limit.is_some() as u8, plan.sanitize as u8, plan.skip, plan.napp, plan.scen.threads.len());
